@@ -39,6 +39,26 @@ def confirm(wt, diff, demo):
                       "baseline_missing_with": missing[:5], "confirmed": ok, "demo_with_tail": (r1.stdout + r1.stderr)[-300:]}, indent=1))
     return 0 if ok else 1
 
+def detect_wt(prop, diff, budget="50", wt="/tmp/dst_scratch_repo"):
+    """like detect, but in a scratch worktree of /repo (leaves /repo alone)"""
+    if not os.path.isdir(wt):
+        r = sh(f"git worktree add -q --detach {wt} HEAD", cwd="/repo")
+        assert r.returncode == 0, r.stderr
+    sh("git checkout -q --detach $(git -C /repo rev-parse HEAD) && git checkout -- . && git clean -fdq", cwd=wt)
+    a = sh(f"git apply {diff}", cwd=wt)
+    if a.returncode != 0:
+        print("APPLY-FAILED", a.stderr[-300:]); return 2
+    try:
+        env = dict(os.environ, VERIF_BUDGET_S=str(budget), DST_REPO=wt)
+        r = sh(f"/venv/bin/python /verif/dst/check.py {prop} --tier quick --no-evidence", env=env)
+    finally:
+        sh("git checkout -- .", cwd=wt)
+    lines = [l for l in r.stdout.splitlines() if l.startswith(("VIOLATION", "{", prop, "HARNESS"))]
+    print("\n".join(lines[-6:]))
+    print("exit", r.returncode, "=>", "DETECTED" if r.returncode == 1 else ("QUIET" if r.returncode == 0 else "HARNESS"))
+    return 0 if r.returncode == 1 else 1
+
+
 def detect(prop, diff, budget="50"):
     assert sh("git status --porcelain --untracked-files=no", cwd="/repo").stdout.strip() == "", "/repo dirty"
     a = sh(f"git apply {diff}", cwd="/repo")
@@ -57,3 +77,4 @@ def detect(prop, diff, budget="50"):
 if __name__ == "__main__":
     if sys.argv[1] == "confirm": sys.exit(confirm(*sys.argv[2:5]))
     if sys.argv[1] == "detect": sys.exit(detect(*sys.argv[2:]))
+    if sys.argv[1] == "detect-wt": sys.exit(detect_wt(*sys.argv[2:]))
